@@ -189,6 +189,11 @@ func collect(pc *pcache.ProviderCache, q string, lookup []byte) (ob observed) {
 // queried context), then a refresh brings the case's record with a later advertisement time; the results must be those of the
 // new record alone.
 func queryAfterRefresh(pi *model.ProviderInfo, q string, lookup []byte) (ob observed) {
+	return queryAfterEarlier(nil, pi, q, lookup)
+}
+
+// queryAfterEarlier is queryAfterRefresh with the earlier record given (nil: a record that shares nothing with the case's).
+func queryAfterEarlier(given *model.ProviderInfo, pi *model.ProviderInfo, q string, lookup []byte) (ob observed) {
 	defer func() {
 		if e := recover(); e != nil {
 			ob.Panic = fmt.Sprint(e)
@@ -198,13 +203,16 @@ func queryAfterRefresh(pi *model.ProviderInfo, q string, lookup []byte) (ob obse
 		Providers: []peer.AddrInfo{addrInfo("y")}, Metadatas: [][]byte{otherMD},
 		Contextual: []model.ContextualExtendedProviders{{Override: true, ContextID: "c1", Providers: []peer.AddrInfo{addrInfo("x"), addrInfo("y")}, Metadatas: [][]byte{otherMD, nil}}},
 	}}
+	if given != nil {
+		earlier = given
+	}
 	src := &staticSource{earlier}
 	pc, err := pcache.New(pcache.WithSource(src), pcache.WithPreload(true), pcache.WithRefreshInterval(0))
 	if err != nil {
 		ob.Err = "new: " + err.Error()
 		return
 	}
-	if _, err := pc.GetResults(context.Background(), ids.Peer("m"), []byte(q), lookup); err != nil {
+	if _, err := pc.GetResults(context.Background(), ids.Peer("m"), []byte(q), lookup); err != nil && given == nil {
 		ob.Err = "first lookup: " + err.Error()
 		return
 	}
@@ -386,6 +394,18 @@ func Run(args []string) *rep.Report {
 					n++
 					if key, ok := judge(tc, ob); !ok {
 						r.Diverge(rep.Divergence{Key: key, Case: tc, Expected: tc.Out, Observed: ob, Detail: "variant refreshed: the cache held an earlier record of the provider"})
+					}
+				}
+				if tc.Rec.Has && tc.Rec.Cxp {
+					// the cache held the same record with the override flag the other way round (and an earlier time)
+					flipped := tc.Rec
+					flipped.Ov = !flipped.Ov
+					earlier := build(flipped, true)
+					earlier.LastAdvertisementTime = "2023-12-31T00:00:00Z"
+					ob := queryAfterEarlier(earlier, build(tc.Rec, true), tc.Q, lookup)
+					n++
+					if key, ok := judge(tc, ob); !ok {
+						r.Diverge(rep.Divergence{Key: key, Case: tc, Expected: tc.Out, Observed: ob, Detail: "variant refreshed-flag: the cache held this record with the override flag flipped"})
 					}
 				}
 				{
